@@ -18,7 +18,7 @@ RULE = ('case = (API in {pmap, piter, piter_fn, piter_multiplex, MultiplexIterat
         'values are collected; on early stop / failure a duplicate-free sub-multiset, the consumer sees the failure; afterwards '
         'every submitted task has finished, no virtual thread is blocked and MultiplexIterator has shut its pool down; non-trivial '
         '= parallelism >= 2 (or >= 2 inputs) and >= 1 preemption; distinct = distinct canonical case JSON'
-        '; also: an in-process MultiplexIterator over a thread-fed queue, pools with fewer threads than sources, 257..300 sources, return values of many kinds; scenario two_default_pipelines: two piter() pipelines on default pools, the later one drained first')
+        '; also: an in-process MultiplexIterator over a thread-fed queue, pools with fewer threads than sources, 257..300 sources, return values of many kinds; a consumer interrupted by KeyboardInterrupt inside next() of a MultiplexIterator; scenario two_default_pipelines: two piter() pipelines on default pools, the later one drained first')
 ASSUMPTIONS = [
     'same scheduler trusted base as C04; the shim ThreadPoolExecutor starts a worker per submitted task up to max_workers',
 ]
@@ -78,6 +78,15 @@ def run_case(case):
     else:
       res = iter_utils.MultiplexIterator(data_sources=[list(x) if False else x for x in ins], iter_fn=itfn, parallism=par, name='mx')
     info['res'] = res
+    if oc['kind'] == 'interrupt':
+      # the consumer is interrupted from outside (Ctrl-C) while it iterates: the exception reaches it at its next wait
+      me = dsched.S().cur
+
+      def ctrl_c():
+        for _ in range(oc['after']):
+          dsched.time_shim.sleep(0)
+        dsched.interrupt(me, KeyboardInterrupt())
+      dsched.Thread(target=ctrl_c, name='ctrl-c').start()
     try:
       if oc['kind'] == 'stop_after' and isinstance(res, iter_utils.IteratorQueue) and oc['how'] == 'num_steps':
         for x in res.dequeue_as_iterator(num_steps=oc['m']):
@@ -97,8 +106,11 @@ def run_case(case):
             break
     except dsched._Killed:  # pylint: disable=protected-access
       raise
+    except KeyboardInterrupt as e:
+      info['interrupted'] = e
     except Exception as e:  # pylint: disable=broad-exception-caught
       info['error'] = e
+    dsched.S().cur.pending_exc = None
     # all helper work must be able to finish: shutting the caller's pool down must not hang
     pool.shutdown(wait=True)
   try:
@@ -118,7 +130,9 @@ def run_case(case):
   check(all(x in sequential for x in out), 'element-invented', f'{what}: outputs {out}, sequential {sequential}')
   fails = oc['kind'] == 'fail_input' and oc['p'] < lens[oc['i']] and not (api in ('pmap', 'piter_fn') and oc['i'] != 0) or (
       oc['kind'] == 'fail_fn' and api not in ('piter_multiplex', 'mux_over_queue') and poison is not None and (poison - 0) in [x - 100 for x in sequential])
-  if oc['kind'] == 'exhaust' or (oc['kind'] in ('fail_input', 'fail_fn') and not fails):
+  if oc['kind'] == 'interrupt' and 'interrupted' in info:
+    check('error' not in info, 'unexpected-error', lambda: f'{what}: {info["error"]!r}')
+  elif oc['kind'] in ('exhaust', 'interrupt') or (oc['kind'] in ('fail_input', 'fail_fn') and not fails):
     check('error' not in info, 'unexpected-error', lambda: f'{what}: {info["error"]!r}')
     check(sorted(out) == sorted(sequential), 'parallel-output-differs-from-sequential', f'{what}: outputs {sorted(out)}, sequential {sorted(sequential)}')
     if isinstance(res, iter_utils.IteratorQueue):
@@ -223,7 +237,9 @@ def strat(tier):
     if par == 0:
       kinds = [k for k in kinds if k != 'stop_after']     # in-process evaluation: nothing to stop
     kind = draw(st.sampled_from(kinds))
-    if kind == 'exhaust':
+    if api == 'MultiplexIterator' and par >= 1 and kind == 'exhaust' and draw(st.integers(0, 3)) == 0:
+      oc = {'kind': 'interrupt', 'after': draw(st.integers(0, 12))}
+    elif kind == 'exhaust':
       oc = {'kind': kind}
     elif kind == 'stop_after':
       oc = {'kind': kind, 'm': draw(st.integers(0, 6)), 'how': 'maybe_stop' if api == 'mux_over_queue' else draw(st.sampled_from(['num_steps', 'maybe_stop']))}
